@@ -14,9 +14,9 @@ git apply $OUT/patch.diff || { echo "PATCH DOES NOT APPLY"; exit 1; }
 go build ./... || { echo "DOES NOT BUILD"; exit 1; }
 SUITE=$(go test -vet=off -count=1 ./pkg/... ./cmd/... 2>&1 | grep -c "^FAIL\|^---\s*FAIL")
 cp $OUT/demo_test.go $WT/$PKG/zz_seed_demo_test.go
-go test -vet=off -count=1 -run 'Demo|demo' ./$PKG/ > /tmp/demo_with.txt 2>&1; WITH=$?
+go test -vet=off -count=1 -run 'Demo|demo|Seed|Test_C0' ./$PKG/ > /tmp/demo_with.txt 2>&1; WITH=$?
 git apply -R $OUT/patch.diff
-go test -vet=off -count=1 -run 'Demo|demo' ./$PKG/ > /tmp/demo_without.txt 2>&1; WITHOUT=$?
+go test -vet=off -count=1 -run 'Demo|demo|Seed|Test_C0' ./$PKG/ > /tmp/demo_without.txt 2>&1; WITHOUT=$?
 rm -f $WT/$PKG/zz_seed_demo_test.go
 echo "suite failures with patch: $SUITE; demo exit with patch: $WITH (want !=0); without: $WITHOUT (want 0)"
 CONFIRMED=no; [ "$SUITE" = "0" ] && [ "$WITH" != "0" ] && [ "$WITHOUT" = "0" ] && CONFIRMED=yes
